@@ -5,6 +5,8 @@ import MindsVerif.Lemmas.SemSetOps
 import MindsVerif.Lemmas.SemChain
 import MindsVerif.Lemmas.SemLimit
 import MindsVerif.Lemmas.SemSeq
+import MindsVerif.Lemmas.SemAgg
+import MindsVerif.Lemmas.SemSet
 /-!
 # C08 — executing a federated plan returns what the original query returns
 
@@ -47,8 +49,25 @@ RIGHT / FULL), `C08_useLimit_group_by` (1052add), `C08_regression_isnull*` (1509
 (f75cd04).  The component-level counterexamples that motivated those repairs are kept: `C08_witness_semi_right/full`,
 `C08_witness_isnull`, `C08_witness_limit_where`, `C08_witness_limit_group`, `C08_witness_chain3_isnull`.
 
-Not in Lean (probe only, `tools/props/c08.py`): pushdown into the 2nd / 3rd table of a chain, ORDER BY, OFFSET and GROUP BY
-semantics, sub-selects and CTEs as join operands, IN / scalar sub-queries, api-type integrations, name resolution of CTEs.
+**Round 5 — select lists with aggregates** (`Model/SemAgg.lean`, tie: stream `agg-select`): target trees `Tgt`, the recogniser
+`Tgt.hasAgg` (an aggregate call at ANY depth, `C08_agg_hasAgg_iff_subterm`) that `check_use_limit` and `plan_api_db_select` use,
+`selectRows` (row-wise, or ONE row with an aggregate), the fragment with a select list `QA`.  `C08_agg_partial_model`:
+`planSound q.toQ2 → execPlanA (planA q) q.targets db = evalQueryA q db`; corollaries `C08_agg_partial_model_aggregated` (EVERY
+aggregated query, all join kinds, with or without LIMIT), `C08_agg_partial_model_left`; LIMIT is in the first fetch only if no
+aggregate occurs anywhere (`C08_agg_limit_pushed_only_if_noagg`); LIMIT commutes with an aggregate-free select list
+(`C08_agg_limit_commutes_noagg`, below a LEFT join `C08_agg_T83_limit_left_noagg`) and not with `count(*) + 0`
+(`C08_agg_witness_limit_left`); a recogniser that looks at the top node only is wrong (`C08_agg_topAgg_incomplete`,
+`C08_agg_witness_shallow`); api split `C08_agg_api`, `C08_agg_witness_api`.
+
+**Round 5 — set operations across integrations** (`Model/SemSet.lean`, tie: stream `setop-plan`): operands with DISTINCT / GROUP BY
+/ ORDER BY / LIMIT / OFFSET, trees of UNION [ALL] / INTERSECT / EXCEPT, the step list of `plan_union`.  `C08_set`: plan = query
+for EVERY tree and all contents; `C08_set_unique_congr`, `C08_set_distinct_operand_sound_if_no_window` (when an extra DISTINCT in
+the operands would be sound), `C08_set_witness_distinct_before_offset`, `C08_set_witness_except_keeps_rows` (DISTINCT before
+OFFSET differs).
+
+Not in Lean (probe only, `tools/props/c08.py`): pushdown into the 2nd / 3rd table of a chain, ORDER BY / OFFSET of join queries,
+GROUP BY semantics of join queries, sub-selects and CTEs as join operands, join operands of set operations, IN / scalar
+sub-queries, WHERE / ORDER BY of api selects, name resolution of CTEs.
 -/
 set_option linter.unusedSimpArgs false
 namespace MindsVerif.Props.C08
@@ -646,5 +665,153 @@ example : execPlan (plan { kind := .left, c0 := 0, c1 := 0, w := some (.cmpC .gt
   = evalQuery { kind := .left, c0 := 0, c1 := 0, w := some (.cmpC .gt 1 1 (.int 0)), limit := none }
     { t0 := [[.int 1, .int 0], [.int 2, .int 0]], t1 := [[.int 1, .int 2], [.int 1, .int 0]], n0 := 2, n1 := 2 } := by
   decide
+
+/-! ## round 5 (i): select lists with aggregates at any depth (`Model/SemAgg.lean`, stream `agg-select`) -/
+
+/-- the full statement on the fragment with a select list (false for the same reason as `C08_full`: LIMIT below a join that is
+not a LEFT join; see `C08_agg_partial_model`) -/
+def C08_agg_full : Prop := ∀ (q : QA) (db : DB), execPlanA (planA q) q.targets db = evalQueryA q db
+
+/-- the recogniser `query_traversal(targets, is_aggregate)`: true iff SOME sub-term, at any depth, is an aggregate call -/
+theorem C08_agg_hasAgg_iff_subterm (t : Tgt) : t.hasAgg = true ↔ ∃ s ∈ t.subterms, s.topAgg = true :=
+  t.hasAgg_iff_subterm
+
+/-- the top-node test accepts only aggregated select lists … -/
+theorem C08_agg_topAgg_sound (ts : List Tgt) (h : selTopAgg ts = true) : selHasAgg ts = true :=
+  selHasAgg_of_selTopAgg ts h
+
+/-- `count(*) + 0` -/
+def tCountPlus0 : Tgt := .arith .add (.agg .count .star) (.const (.int 0))
+
+/-- … but misses `count(*) + 0`, `CAST(sum(x) AS integer)`, `max(x) - min(x)`, `CASE WHEN count(*) > 1 …`, `abs(min(x))` -/
+theorem C08_agg_topAgg_incomplete :
+    [tCountPlus0, .cast (.agg .sum (.col 0 1)), .arith .sub (.agg .max (.col 0 1)) (.agg .min (.col 0 1)),
+      .case (.cmp .gt (.agg .count .star) (.const (.int 1))) (.const (.int 1)) (.const (.int 0)),
+      .fn1 (.agg .min (.col 1 0))].all (fun t => t.hasAgg && !t.topAgg) = true := by decide
+
+/-- **fragment theorem with a select list** (row-wise or aggregated at any depth), all databases -/
+theorem C08_agg_partial_model (q : QA) (db : DB) (h : planSound q.toQ2 = true) :
+    execPlanA (planA q) q.targets db = evalQueryA q db :=
+  planA_sound q db h
+
+/-- LIMIT is copied into the first fetch only if no aggregate occurs anywhere in the select list -/
+theorem C08_agg_limit_pushed_only_if_noagg (q : QA) (h : (planA q).limit0.isSome = true) : selHasAgg q.targets = false :=
+  planA_limit0_some_only_if_noagg q h
+
+/-- corollary: EVERY aggregated query (aggregate at any depth) — all join kinds, any WHERE tree, with or without LIMIT -/
+theorem C08_agg_partial_model_aggregated (q : QA) (db : DB) (h : selHasAgg q.targets = true) :
+    execPlanA (planA q) q.targets db = evalQueryA q db := by
+  apply planA_sound
+  have := planA_limit0_none_of_agg q h
+  simp [planSound, limitSound, planA] at this ⊢
+  simp [this]
+
+/-- corollary: EVERY LEFT-join query, any select list, with or without LIMIT -/
+theorem C08_agg_partial_model_left (q : QA) (db : DB) (hk : q.kind.isLeft = true) :
+    execPlanA (planA q) q.targets db = evalQueryA q db := by
+  apply planA_sound
+  simp [planSound, limitSound, QA.toQ2, hk]
+
+/-- LIMIT may be applied before an aggregate-free select list (the heart of both pushdown paths) … -/
+theorem C08_agg_limit_commutes_noagg (ts : List Tgt) (h : selHasAgg ts = false) (n : Option Nat)
+    (rows : List (TRow × TRow)) : limitOf n (selectRows ts rows) = selectRows ts (limitOf n rows) :=
+  selectRows_limit_noagg ts h n rows
+
+/-- … hence LIMIT n below a LEFT join is row-preserving when no aggregate occurs anywhere in the select list -/
+theorem C08_agg_T83_limit_left_noagg {α β : Type} (ts : List Tgt) (h : selHasAgg ts = false)
+    (on : α → β → Bool) (mk : α → β → TRow × TRow) (nr : β) (n : Nat) (L : List α) (R : List β) :
+    limitOf (some n) (selectRows ts (leftJoin on mk nr (L.take n) R))
+      = limitOf (some n) (selectRows ts (leftJoin on mk nr L R)) :=
+  limit_left_select_noagg ts h on mk nr n L R
+
+/-- counter-witness: `SELECT count(*) + 0 … LEFT JOIN … LIMIT 1` with the LIMIT below the join counts 1 row instead of 3 -/
+theorem C08_agg_witness_limit_left :
+    limitOf (some 1) (selectRows [tCountPlus0]
+        (leftJoin (eqOn 0 0) Prod.mk (nullRow 1) ([[.int 1], [.int 2], [.int 3]].take 1) [[.int 2]]))
+      ≠ limitOf (some 1) (selectRows [tCountPlus0]
+        (leftJoin (eqOn 0 0) Prod.mk (nullRow 1) [[.int 1], [.int 2], [.int 3]] [[.int 2]])) := by decide
+
+def aggQ : QA :=
+  { kind := .left, c0 := 0, c1 := 0, w := none, limit := some 1,
+    targets := [.arith .sub (.agg .max (.col 0 1)) (.agg .min (.col 0 1)), tCountPlus0] }
+def aggDB : DB := { t0 := [[.int 1, .int 5], [.int 2, .int 9]], t1 := [[.int 1, .int 0], [.int 1, .int 1]], n0 := 2, n1 := 2 }
+
+/-- the real recogniser keeps LIMIT out of the first fetch; the top-node recogniser lets it in … -/
+theorem C08_agg_witness_shallow_plan : (planA aggQ).limit0 = none ∧ (planAShallow aggQ).limit0 = some 1 := by decide
+
+/-- … and the plan is then wrong: `max(x) - min(x), count(*) + 0` over 1 fetched row instead of over the 3 joined rows -/
+theorem C08_agg_witness_shallow :
+    execPlanA (planAShallow aggQ) aggQ.targets aggDB ≠ evalQueryA aggQ aggDB ∧
+    execPlanA (planA aggQ) aggQ.targets aggDB = evalQueryA aggQ aggDB := by decide
+
+/-- api integrations: the split plan of `plan_api_db_select` (LIMIT in the fetch iff no aggregate anywhere) is right -/
+theorem C08_agg_api (ts : List Tgt) (n : Option Nat) (T : List TRow) :
+    execApi (apiPushLimit ts) ts n T = evalApi ts n T :=
+  api_sound ts n T
+
+/-- counter-witness: LIMIT in the api fetch of `SELECT max(x) - min(x) … LIMIT 1` -/
+theorem C08_agg_witness_api :
+    execApi true [.arith .sub (.agg .max (.col 0 0)) (.agg .min (.col 0 0))] (some 1) [[.int 1], [.int 4]]
+      ≠ evalApi [.arith .sub (.agg .max (.col 0 0)) (.agg .min (.col 0 0))] (some 1) [[.int 1], [.int 4]] := by decide
+
+/-- non-vacuity: the hypothesis of `C08_agg_partial_model` holds for an inner join with an aggregated select list and LIMIT, and
+the evaluated sides agree -/
+example : planSound ({ aggQ with kind := .inner } : QA).toQ2 = true ∧
+    execPlanA (planA { aggQ with kind := .inner }) aggQ.targets aggDB = evalQueryA { aggQ with kind := .inner } aggDB := by decide
+
+/-! ## round 5 (ii): set operations across integrations (`Model/SemSet.lean`, stream `setop-plan`) -/
+
+/-- the full statement for set operations: the step list of `plan_union` returns the rows of the query -/
+def C08_set_full : Prop := ∀ (q : SetQ) (db : DBn), execSetPlan (planSet q []) db = q.eval db
+
+/-- **set operations: plan = query** for every tree of UNION [ALL] / INTERSECT / EXCEPT, every operand shape (DISTINCT, GROUP BY,
+ORDER BY, LIMIT, OFFSET in every combination) and all contents -/
+theorem C08_set : C08_set_full := planSet_sound
+
+/-- the shape of the plan of a two-operand operation: the operands as written, then the UnionStep over steps 0 and 1 -/
+theorem C08_set_plan_shape (k : SetOpK) (a b : Opnd) :
+    planSet (.op k (.sel a) (.sel b)) [] = ([.fetch a, .fetch b, .setop k 0 1], 2) := rfl
+
+/-- a non-ALL UnionStep depends only on the row SETS of its operands (up to order) -/
+theorem C08_set_unique_congr (k : SetOpK) (hk : k.unique = true) (A A' B B' : List TRow)
+    (hA : ∀ x, x ∈ A ↔ x ∈ A') (hB : ∀ x, x ∈ B ↔ x ∈ B') : (k.apply A B).Perm (k.apply A' B') :=
+  apply_perm_of_mem_iff k hk A A' B B' hA hB
+
+/-- when WOULD "every source returns distinct rows" be sound: operands without a row window (no LIMIT, no OFFSET) -/
+theorem C08_set_distinct_operand_sound_if_no_window (k : SetOpK) (hk : k.unique = true) (ol or : Opnd)
+    (hl : ol.noWindow = true) (hr : or.noWindow = true) (db : DBn) :
+    (k.apply (ol.optDistinct.eval db) (or.optDistinct.eval db)).Perm (k.apply (ol.eval db) (or.eval db)) :=
+  optDistinct_sound_if_no_window k hk ol or hl hr db
+
+/-- `(SELECT c0 FROM t0 ORDER BY c0 OFFSET 1) <op> SELECT c0 FROM t1` -/
+def setQ (k : SetOpK) : SetQ :=
+  .op k (.sel { tbl := 0, cols := [0], order := [(0, false)], offset := some 1 }) (.sel { tbl := 1, cols := [0] })
+def setDB : DBn := [[[.int 0], [.int 1], [.int 0]], [[.int 2]]]
+
+/-- DISTINCT before OFFSET differs: t0.c0 in order is 0 0 1, skipping one row leaves 0 1; de-duplicated first it is 0 1 and
+skipping one row leaves 1 — the UNION loses the row 0 (the guard `limit is None` alone is not enough) -/
+theorem C08_set_witness_distinct_before_offset :
+    execSetPlan (planSetOpt (setQ .union) false []) setDB ≠ (setQ .union).eval setDB ∧
+    execSetPlan (planSet (setQ .union) []) setDB = (setQ .union).eval setDB := by decide
+
+/-- … and `SELECT c0 FROM t1 EXCEPT (SELECT c0 FROM t0 ORDER BY c0 OFFSET 2)` keeps a row that the query removes -/
+theorem C08_set_witness_except_keeps_rows :
+    let q : SetQ := .op .except (.sel { tbl := 1, cols := [0] })
+      (.sel { tbl := 0, cols := [0], order := [(0, false)], offset := some 2 })
+    let db : DBn := [[[.int 0], [.int 1], [.int 0]], [[.int 1], [.int 2]]]
+    execSetPlan (planSetOpt q false []) db = [[.int 1], [.int 2]] ∧ q.eval db = [[.int 2]] := by decide
+
+/-- the hypothesis of `C08_set_distinct_operand_sound_if_no_window` is satisfiable and excludes the witness operand -/
+example : ({ tbl := 0, cols := [0, 1], order := [(1, true)] } : Opnd).noWindow = true ∧
+    ({ tbl := 0, cols := [0], order := [(0, false)], offset := some 1 } : Opnd).noWindow = false := by decide
+
+/-- a three-operand tree with a grouped, a windowed and a DISTINCT operand (sample, by evaluation) -/
+example :
+    let q : SetQ := .op .unionAll (.op .intersect
+        (.sel { tbl := 0, cols := [0], group := true, order := [(0, true)], limit := some 2 })
+        (.sel { tbl := 1, cols := [0, 1] }))
+      (.sel { tbl := 0, cols := [1, 0], distinct := true, order := [(0, false), (1, false)], limit := some 1, offset := some 1 })
+    let db : DBn := [[[.int 0, .int 1], [.int 1, .null], [.int 0, .int 1]], [[.int 1, .int 1], [.int 0, .int 2]]]
+    execSetPlan (planSet q []) db = [[.int 1, .int 1], [.int 0, .int 2], [.int 1, .int 0]] := by decide
 
 end MindsVerif.Props.C08
